@@ -3,6 +3,10 @@
 package filters
 
 import (
+	cmttypes "github.com/cometbft/cometbft/types"
+	"github.com/cosmos/cosmos-sdk/client"
+	"github.com/ethereum/go-ethereum/rpc"
+
 	coretypes "github.com/cometbft/cometbft/rpc/core/types"
 	cmtjrpcclient "github.com/cometbft/cometbft/rpc/jsonrpc/client"
 	cmtjrpctypes "github.com/cometbft/cometbft/rpc/jsonrpc/types"
@@ -92,3 +96,46 @@ func eventSystem(nEvents int, second bool, delays int) {
 	}
 	verif.Reach("quiesced")
 }
+
+// verifBackend is the backend of the filter API: only the filter cap is asked for block filters.
+type verifBackend struct{ Backend }
+
+func (verifBackend) RPCFilterCap() int32 { return 200 }
+
+// H_C20_7_FilterAPI: the real PublicFilterAPI (NewPublicAPI with its timeout loop, the event system and event bus
+// underneath, the real consumer goroutines of NewBlockFilter) driven the way concurrent JSON-RPC requests drive
+// it: eth_newBlockFilter twice, a block header event arriving from CometBFT, eth_getFilterChanges and
+// eth_uninstallFilter of the first filter, each request in its own goroutine: within the delay bound no
+// goroutine panics, nothing deadlocks, an uninstalled filter is gone, polling an unknown filter is an error.
+func H_C20_7_FilterAPI() { filterAPI(2) }
+
+// H_C20_7b_FilterAPIDeeper (thorough tier): delay bound 3 (bound 4 is 4.6 million schedules, 40 minutes: run once, clean).
+func H_C20_7b_FilterAPIDeeper() { filterAPI(3) }
+
+func filterAPI(delays int) {
+	verif.Schedule(delays)
+	ws := &cmtjrpcclient.WSClient{ResponsesCh: make(chan cmtjrpctypes.RPCResponse)}
+	api := NewPublicAPI(model.NopLogger{}, clientContext(), ws, verifBackend{})
+	id1 := api.NewBlockFilter()
+	var id2 rpc.ID
+	done := 0
+	go func() { id2 = api.NewBlockFilter(); done++ }()
+	go func() {
+		ev := coretypes.ResultEvent{Query: headerEvents, Data: cmttypes.EventDataNewBlockHeader{}}
+		ws.ResponsesCh <- cmtjrpctypes.RPCResponse{Result: verif.EncodeAny(&ev)}
+		done++
+	}()
+	go func() { _, _ = api.GetFilterChanges(id1); done++ }()
+	removed := false
+	go func() { removed = api.UninstallFilter(id1); done++ }()
+	verif.Quiesce()
+	verif.Assert("all-requests-returned", done == 4)
+	verif.Assert("uninstall-of-an-installed-filter-succeeds", removed)
+	_, err := api.GetFilterChanges(id1)
+	verif.Assert("uninstalled-filter-is-gone", err != nil)
+	verif.Assert("second-uninstall-reports-false", !api.UninstallFilter(id1))
+	_ = id2
+	verif.Reach("quiesced")
+}
+
+func clientContext() client.Context { return client.Context{} }
